@@ -123,10 +123,12 @@ class ListProxy(list, ContainerValueMixin):
         )
 
     def _get_item_position(self, item: Any) -> str:
-        try:
-            return str(self.index(item))
-        except:  # noqa: E722
-            return str(len(self))
+        # by identity: items that compare equal (two configurations with the same values) are
+        # different positions
+        for index, other in enumerate(self):
+            if other is item:
+                return str(index)
+        return str(len(self))
 
 
 class ListField(Field):
